@@ -115,30 +115,34 @@ class _Build(Transformer):
         return ("T", Term(c[0][1], c[0][2], la))
 
     def simple_token(self, c):
-        return c[0]
+        deco = c[1] if len(c) > 1 and isinstance(c[1], str) else ""
+        return ("T", c[0][1], deco)
 
     def token_with_states(self, c):
         t = c[1][1]
         t.states = tuple(c[0])
-        return ("T", t)
+        deco = c[2] if len(c) > 2 and isinstance(c[2], str) else ""
+        return ("T", t, deco)
 
     def ident_list(self, c):
         return [str(x) for x in c]
 
     def non_terminal(self, c):
-        return ("N", str(c[0]))
+        deco = c[1] if len(c) > 1 and isinstance(c[1], str) else ""
+        return ("N", str(c[0]), deco)
 
     def ast_control(self, c):
-        return None
+        # canonical text of the AST-control decoration (kept only for structural comparisons)
+        return "".join(str(x) for x in c if x is not None) or ""
 
     def member_name(self, c):
-        return None
+        return "@" + str(c[0])
 
     def user_type_decl(self, c):
-        return None
+        return ":" + str(c[0])
 
     def user_type_name(self, c):
-        return None
+        return "::".join(str(x) for x in c)
 
     def group(self, c):
         return ("G", c[0])
@@ -236,6 +240,7 @@ class Grammar:
     # -- textbook EBNF -> BNF
     def _expand(self):
         self.bnf = []           # list of (lhs, [sym]) ; sym = ("T", key) | ("N", name)
+        self.bnf_deco = []      # decorations (^, @name, :Type) per symbol, aligned with self.bnf
         self.terms = {}         # key -> Term (first occurrence)
         self.term_order = []
         self._fresh = 0
@@ -249,9 +254,11 @@ class Grammar:
                     used.add(n)
                     return n
 
-        def seq(lhs, alt):
+        def seq(lhs, alt, deco_out=None):
             out = []
             for f in alt:
+                if deco_out is not None:
+                    deco_out.append(f[2] if len(f) > 2 else "")
                 if f[0] == "T":
                     k = f[1].key()
                     if k not in self.terms:
@@ -283,7 +290,9 @@ class Grammar:
 
         for lhs, alts in self.ebnf:
             for a in alts:
-                self.bnf.append((lhs, seq(lhs, a)))
+                d = []
+                self.bnf.append((lhs, seq(lhs, a, d)))
+                self.bnf_deco.append(d)
 
     def is_plain_bnf(self):
         return all(f[0] in ("T", "N") for _, alts in self.ebnf for a in alts for f in a)
